@@ -110,7 +110,7 @@ def validate_renderings(lang, items, workdir):
     elif lang == "typescript":
         from lib import gen_core
         for name, text, prog in items:
-            stripped = re.sub(r": number\[\]|: number|: string", "", text)
+            stripped = re.sub(r": number\[\]|: number|: string|: Rec", "", text)
             stripped = "".join(l for l in stripped.splitlines(True) if not re.fullmatch(r"\s*f[ab];\n", l))
             res[name] = "same-as-js" if stripped == gen_core.JsR(0).render(prog) else None
     return res
@@ -155,6 +155,8 @@ def judge_lang_batch(job):
             continue
         if lang == "c" and "str-append" in prog.features:
             continue        # C has no string append operator: the program is not expressible there
+        if lang in ("c", "go") and "rec-methods" in prog.features:
+            continue        # classes with initialised fields and methods are rendered for the class-based languages only
         ident = f"P{sd}"
         text = R(ident).render(prog)
         name = (f"Main{ident}.java" if lang == "java" else f"p{sd}.{R.ext}")
